@@ -19,6 +19,17 @@ func roleBinOp(op token.Token, x, y role) role {
 		if !ok || bo.Op != op {
 			return false
 		}
+		// the specification's formulas are over integers: an addition, multiplication or shift carried
+		// out in 8- or 16-bit arithmetic wraps (int(s+1) is not int(s)+1 for s = 0xff)
+		switch op {
+		case token.ADD, token.SUB, token.MUL, token.SHL:
+			if bt, isB := bo.Type().Underlying().(*types.Basic); isB {
+				switch bt.Kind() {
+				case types.Int8, types.Uint8, types.Int16, types.Uint16:
+					return false
+				}
+			}
+		}
 		if x(bo.X) && y(bo.Y) {
 			return true
 		}
